@@ -25,7 +25,8 @@ Record config := Config {
   iso_level : Z;                  (* replication.isolation-level, 0 = "" *)
   en_remove_down : bool; en_replace_offline : bool; en_make_up : bool; en_remove_extra : bool; en_location : bool;
   rules_enabled : bool;           (* placement rules *)
-  joint_enabled : bool            (* joint consensus supported and use-joint-consensus *)
+  joint_enabled : bool;           (* joint consensus supported and use-joint-consensus *)
+  reject_leader : list (Z * lval) (* label-property reject-leader: the configured (key, value) entries *)
 }.
 
 Record region := Region {
@@ -635,6 +636,9 @@ Local Open Scope Z_scope.
 Definition check_case (c : case) : verdict :=
   let inp := fst c in
   let allowed := model_check inp in
+  if negb (reject_flags_ok (reject_leader (i_cfg inp)) (i_stores inp))
+  then VBad "a store's reject-leader flag differs from the specification of CheckLabelProperty"
+  else
   match snd c with
   | None => if existsb (res_eqb None) allowed then VOk else VBad "impl returned no operator, the model requires one"
   | Some io =>
